@@ -7,6 +7,11 @@ import z3
 
 from .loader import Unsupported
 
+try:  # pattern-inference chatter is not a verdict
+    z3.set_param("warning", False)
+except Exception:  # noqa: BLE001
+    pass
+
 
 class PathInfeasible(Exception):
     pass
